@@ -1,8 +1,8 @@
 INIT GenInit
 NEXT GenNext
 CONSTANTS
-  Goroutines = {2, 8, 32, 64}
-  Ops = {100, 400}
+  Goroutines = {2, 16, 64}
+  Ops = {250}
   Shared = {0, 3}
   MixNames = {"create", "log", "balanced"}
   Closers = {TRUE, FALSE}
